@@ -37,8 +37,10 @@ Inductive case :=
 | CChanAdd (chans : list chan) (num : list Z) (paused : bool) (nclients : Z)
 | CTopicAdd (nodes : list (list chan * list Z * bool)) (num : list Z) (paused : bool) (chans : list obs_chan)
   (* the real ChannelStats.Add on blocks decoded by the real UnmarshalJSON: a fresh receiver, or
-     (raw) the first node's ChannelStats as the receiver -- what the topic view does to its channels *)
-| CE2eAdd (raw : bool) (nodes : list (option e2e)) (panicked nan : bool) (got : obs_e2e)
+     (raw) the first node's ChannelStats as the receiver -- what the topic view does to its channels
+     ([handnil] > 0: with that many nil maps put in front of the receiver's entries by hand,
+     which no upstream answer can do) *)
+| CE2eAdd (raw : bool) (handnil : nat) (nodes : list (option e2e)) (panicked nan : bool) (got : obs_e2e)
   (* the nsqadmin subprocess after a hostile upstream answer *)
 | CAlive (alive : bool) (answered : bool).
 
@@ -104,20 +106,14 @@ Definition spec_status (src : stage1) (stats : lup (list (option topic))) (st : 
 
 (* ---- the e2e latency aggregate, from the nodes' blocks directly.
    [raw]: the receiver is the first node's own block (the channels of the topic view), so a
-   single node's block is served as it came; otherwise a fresh aggregate.  A null entry of a
-   block reads as quantile 0 / value 0 / count 0 when it is merged into a fresh aggregate; in
-   a raw receiver it stays a nil map and may make the merge panic: those cases are excused. *)
+   single node's block is served as it came; otherwise a fresh aggregate.  Null entries of a
+   block count for nothing: the aggregate is that of the other entries. *)
 Definition contribs (nodes : list (option e2e)) : list (Q * Q * Q) :=
-  flat_map (fun e : e2e => map (fun p => match p with
-                                   | Some p => (pc_q p, pc_val p, inject_Z (e_count e))
-                                   | None => (0, 0, 0)%Q
-                                   end) (e_pcts e)) (nonnil nodes).
+  flat_map (fun e : e2e => map (fun p : pct => (pc_q p, pc_val p, inject_Z (e_count e))) (nonnil (e_pcts e))) (nonnil nodes).
 Definition c_q (c : Q * Q * Q) : Q := fst (fst c).
 Definition c_val (c : Q * Q * Q) : Q := snd (fst c).
 Definition c_cnt (c : Q * Q * Q) : Q := snd c.
 Definition qabs (a : Q) : Q := if Qle_bool 0 a then a else Qopp a.
-Definition has_null_pct (nodes : list (option e2e)) : bool :=
-  existsb (fun e : e2e => existsb is_nil (e_pcts e)) (nonnil nodes).
 Definition two40 : Q := qq 1099511627776 1.
 Definition two30 : Q := qq 1073741824 1.
 (* |a - b| <= (1 + maxv) * amp / 2^bits *)
@@ -130,7 +126,6 @@ Definition e2e_none_expected (raw : bool) (nodes : list (option e2e)) : bool :=
   if raw then Nat.leb (length nodes) 1 && Nat.eqb (length (nonnil nodes)) 0 else Nat.eqb (length nodes) 0.
 
 Definition e2e_spec (raw : bool) (nodes : list (option e2e)) (got : obs_e2e) : bool :=
-  if raw && has_null_pct nodes then true else
   let cs := contribs nodes in
   let maxv := maxQ 0 (map (fun c => qabs (c_val c)) cs) in
   match got with
@@ -397,15 +392,20 @@ Definition judge (c : case) : N :=
               (zs_eqb num (sums_t tns) && Bool.eqb paused (existsb tn_paused tns) &&
                forallb (fun o => let mine := filter (fun a => bytes_eqb (ch_name a) (oc_name o)) cs in
                                  zs_eqb (oc_num o) (sums_c mine) && Bool.eqb (oc_paused o) (existsb ch_paused mine)) chans)
-  | CE2eAdd raw nodes panicked nan got =>
-      let r := if raw then e2e_of_topic_channel nodes else e2e_of_nodes nodes in
+  | CE2eAdd raw handnil nodes panicked nan got =>
+      let r := if raw then
+                 match nodes with
+                 | Some a :: rest => e2e_of_receiver (Some (with_nil_maps handnil (e2e_decode a))) rest
+                 | _ => e2e_of_topic_channel nodes
+                 end
+               else e2e_of_nodes nodes in
       verdict (match r with
                | Ok m => negb panicked && negb nan && close_e2e raw nodes m got
                | Recovered => panicked
                | Crash => false
                end)
-              (* never a number that is not finite; no panic and the documented numbers unless a
-                 raw receiver holds a null entry *)
-              (negb nan && (if raw && has_null_pct nodes then true else negb panicked && e2e_spec raw nodes got))
+              (* on decoded blocks: no panic, every number finite, the documented numbers; a
+                 receiver with hand-made nil maps is not upstream data: only finiteness *)
+              (negb nan && (if Nat.eqb handnil 0 then negb panicked && e2e_spec raw nodes got else true))
   | CAlive alive answered => verdict alive alive
   end.
